@@ -165,7 +165,7 @@ func C20(c Ctx) *report.Report {
 		e := env.New(env.Opts{NUsers: 4, Tokens: toks})
 		e.BeginBlock()
 		// pools (sometimes none at first: the period then starts with zero total depth and pools appear later)
-		latePools := rng.Intn(4) == 0
+		latePools := rng.Intn(4) == 0 || h < 2 // corpus (h < 2): no depth over several distribution blocks of a period with mod > 1
 		for i, t := range toks {
 			if (rng.Intn(6) == 0 && i > 0) || latePools {
 				continue // token without pool
@@ -201,6 +201,18 @@ func C20(c Ctx) *report.Report {
 		period := &clptypes.RewardPeriod{RewardPeriodId: "rp", RewardPeriodStartBlock: start, RewardPeriodEndBlock: start + length - 1,
 			RewardPeriodAllocation: &au, RewardPeriodPoolMultipliers: mults, RewardPeriodDefaultMultiplier: &dflt,
 			RewardPeriodDistribute: rng.Intn(2) == 0, RewardPeriodMod: uint64(rng.Intn(5))}
+		if h < 2 {
+			length = 10 + uint64(h)
+			period.RewardPeriodEndBlock = start + length - 1
+			period.RewardPeriodMod = 2 + uint64(h)
+			one := sdk.OneDec()
+			period.RewardPeriodDefaultMultiplier, period.RewardPeriodPoolMultipliers = &one, nil
+			dflt = one
+			if alloc.Cmp(big.NewInt(1000)) < 0 {
+				alloc = big.NewInt(900000)
+				au = sdk.NewUintFromBigInt(alloc)
+			}
+		}
 		mustOK(e.AddRewardPeriods([]*clptypes.RewardPeriod{period}), "add reward period")
 		hist := map[string]interface{}{"kind": "rewards", "tokens": toks, "start": start, "length": length, "alloc": alloc.String(),
 			"default_multiplier": dflt.String(), "distribute": period.RewardPeriodDistribute, "mod": period.RewardPeriodMod, "seed": c.Seed, "history": h}
